@@ -32,7 +32,11 @@ RULE = ("product explorer over configurations x iteration horizons: a case is (m
         "on the bare data object for the other (fixsigns, printitn, stoptol) combinations of the tier.  A trajectory "
         "is admissible when every unfolding of the data has rank >= the requested rank and the reference ALS keeps "
         "cond(Hadamard-Gram) <= 1e8; inadmissible ones are run (crash detection, structural checks) but their numeric "
-        "verdict is not asserted.  Non-trivial: admissible and the reference model after the sweep is non-zero.")
+        "verdict is not asserted.  The starting-guess alphabet has a weight dimension (explicit integer guess with unit "
+        "weights / with non-unit mixed-sign weights) and a history dimension (warm restart: the guess is the very "
+        "ktensor a real earlier cp_als call of j sweeps returned, in normal form with data-dependent weights); the "
+        "reference ALS starts from the factor matrices of the guess, and the guess object is snapshotted before and "
+        "compared after every run.  Non-trivial: admissible and the reference model after the sweep is non-zero.")
 ASSUMPTIONS = [
     "reference ALS, Kruskal evaluation and MTTKRP in mc/props/C09.py / mc/refmodel.py (einsum on the explicit array, "
     "numpy.linalg.solve) are correct",
@@ -51,14 +55,18 @@ BOUNDS = {
              "rank 2 + integer noise, generic, counts with an empty slice); holders tensor, sptensor, ttensor "
              "(identity factors; native CP factors for the exact members), sumtensor (dense+sparse split; Kruskal + "
              "sparse noise); rank 1..3; K = 3 horizons; guesses: given integer ktensor x dimorder {identity, reversal, "
-             "3-cycle} x optdims {all, drop-first, single}, random seeds {0,1,2} and nvecs with default order; options: "
+             "3-cycle} x optdims {all, drop-first, single}, the given guess with non-unit mixed-sign weights x {(identity, "
+             "all), (reversal, drop-first)}, warm restarts (guess = model returned by an earlier call of j sweeps) "
+             "(j=2, identity, all) and (j=1, reversal, drop-first), random seeds {0,1,2} and nvecs with default "
+             "order; options: "
              "4 covering (fixsigns, printitn, stoptol) combinations on every trajectory, all 18 of "
              "{T,F}x{0,1,2}x{0,1e-4,1} on the default trajectory; dimorder/optdims as lists or left at their defaults",
     "thorough": "same shapes plus (1,4) and (3,1,4) with three members each; 9 members per shape (more value seeds, rank 3 + noise, exact rank 3, empty last slice); "
                 "holders additionally tensor from a C buffer, sptensor stored in reverse, ttensor with sparse core, "
                 "three-part sumtensor, int64-valued tensor/sptensor for the count members; K = 6 horizons; given guess x ALL N! dimorders x ALL non-empty optdims subsets "
                 "(order 4: all 24 dimorders with all modes optimised + 3 dimorders x all 15 subsets), a second given "
-                "guess with non-unit weights, random seeds {0,1,2} and nvecs x 3 dimorders x {all, drop-first}; the "
+                "guess with non-unit weights, warm restarts j in {1,2,3} on 5 (dimorder, optdims) keys, random seeds "
+                "{0,1,2} and nvecs x 3 dimorders x {all, drop-first}; the "
                 "full 18-combination option lattice on 4 trajectories, base + one rotating combination elsewhere",
 }
 CHUNK = 1
@@ -613,6 +621,11 @@ def _run_T(ctx, case, d, name, A, info, R, t, K, seed):
             # the earlier call of a warm restart is itself a run of the given-guess trajectory with the same mode
             # order / optimised modes, where a failure is reported; here there is no guess to continue from
             ctx.count("warm_start_unavailable")
+            return None
+        if gp is not None and not (np.all(np.isfinite(gp[0])) and all(np.all(np.isfinite(f)) for f in gp[1])):
+            # an earlier call outside the quantifier returned a non-finite model: not a starting guess
+            ctx.inadm()
+            ctx.count("warm_start_nonfinite")
             return None
         snapK = O.snapshot(K0) if K0 is not None else None
         if gp is not None and not np.array_equal(gp[0], np.ones(R)):
